@@ -50,6 +50,7 @@ def sh(cmd, timeout=None, cwd=None, env=None):
 
 
 import threading
+_COQ_SLOTS = threading.BoundedSemaphore(int(os.environ.get("VERIF_COQ_JOBS", "0")) or NCPU)
 _built_guard = threading.Lock()
 _built_imports = set()
 
@@ -397,9 +398,12 @@ class Ctx:
         with open(path, "w") as f:
             f.write("From Coq Require Import String.\nFrom Verif Require Import %s.\nOpen Scope string_scope.\nSet Printing Width 100000.\nSet Printing Depth 100000.\n" % " ".join(imports))
             f.write(body)
-        with Lock(False):
-            rc, out = sh("ulimit -s unlimited 2>/dev/null; timeout %d coqc -Q %s Verif -w -notation-overridden %s" % (timeout, COQ, path),
-                         cwd=os.path.join(self.dir, "cases"), timeout=timeout + 30)
+        # at most NCPU case files are evaluated at a time, however many groups a driver runs concurrently
+        # (each coqc needs about half a gigabyte)
+        with _COQ_SLOTS:
+            with Lock(False):
+                rc, out = sh("ulimit -s unlimited 2>/dev/null; timeout %d coqc -Q %s Verif -w -notation-overridden %s" % (timeout, COQ, path),
+                             cwd=os.path.join(self.dir, "cases"), timeout=timeout + 30)
         return rc, out, parse_eval_outputs(out)
 
     def coq_check_cases(self, imports, case_type, checker, cases, shard=400, label="cases", describe=None, diag=None):
